@@ -4,7 +4,7 @@ from store_common import run_store
 from seq_common import run_seq
 
 PROPERTY = 'C05'
-PROPS = ['SalsaVerif.Props.C05']
+PROPS = ['SalsaVerif.Props.C05', 'SalsaVerif.Props.C05Engine']
 EXPLANATION = ('Theorems about the Lean model of the LRU policy (no duplicates, bound after eviction, the evicted ones are exactly the least '
                'recently used, capacity 0 disables, membership = used since enabled and not evicted) for every op sequence; the model is '
                'compared with the real `Lru` (salsa::plumbing::function::Lru) line by line. Transparency (same results with and without '
@@ -15,7 +15,7 @@ ASSUMPTIONS = ['engine-level bound (retained values per function) is checked by 
 def ties(ctx):
     n = 1500 if ctx.tier == 'quick' else 60000
     m = 2000 if ctx.tier == 'quick' else 200000
-    return [run_store(ctx, 'lru', n), run_seq(ctx, 'core3', m, seed_offset=3)]
+    return [run_store(ctx, 'lru', n), run_seq(ctx, 'core3', m, seed_offset=3, model='core3')]
 
 def search(ctx, reason):
     t = run_seq(ctx, 'core3', 200000, seed_offset=92, tag='search-core3')
